@@ -5,6 +5,12 @@
 //! (per-device column, 14-column zones, CR LF at the end unless the statement ends in a
 //! separator, column restart after an embedded CR/LF, cyclic PRINT USING) yields the expected
 //! bytes per device, which are compared with the captured stdout, LPT1 and the two files.
+//!
+//! Round-2 extension: the value list of PRINT USING takes `,` as well as `;` between the values and
+//! at the end (the comma pads to the next zone exactly as in a plain PRINT), and the numeric values
+//! of PRINT USING include exact rounding ties (x.5 in a field without decimals, binary-exact
+//! k/2^(d+1) fractions in a field with d decimals: nearest, halves away from zero) and negative
+//! values that round to zero (sign of the zero not pinned).
 
 use serde_json::{Value, json};
 
@@ -23,6 +29,12 @@ const LAST_ZONE_START: usize = 56;
 const ZONE: usize = 14;
 const DEV_NAMES: [&str; 4] = ["screen", "lpt1", "file1", "file2"];
 const SIG_COMMA_SIGN: &str = "using:comma-after-sign";
+/// A field WITH decimals rounds a binary-exact tie to the even neighbour (`#.#` of .25 -> 0.2).
+const SIG_TIE_EVEN: &str = "using:fraction-tie-half-even";
+/// true: an exact tie in a field with decimals must go away from zero (QBasic rounds the decimal digits
+/// half up; the tree rounds such ties to even, reported under SIG_TIE_EVEN). false: either neighbour is
+/// accepted there (ties of fields without decimals stay pinned).
+const PIN_FRACTION_TIES: bool = true;
 
 // ---------------------------------------------------------------------------------------------
 // expected output: token streams
@@ -70,12 +82,33 @@ struct Features {
     empty_string: u32,
     variables: u32,
     comma_sign_defect: u32,
+    /// commas between / after the values of a PRINT USING statement
+    using_comma: u32,
+    using_comma_trailing: u32,
+    /// ... next to non-empty literal text of the format (the order of text and padding matters)
+    using_comma_at_literal: u32,
+    using_mixed_seps: u32,
+    /// exact rounding ties: field without decimals (even / odd integer part), field with decimals
+    using_tie_int_even: u32,
+    using_tie_int_odd: u32,
+    using_tie_frac: u32,
+    using_tie_negative: u32,
+    /// the half-to-even rendering differs from the expected one (field with decimals)
+    tie_even_defect: u32,
+    using_neg_zero: u32,
+    /// a comma had to move beyond the last zone the check covers (alternative literal order only)
+    comma_far: bool,
     devices: [u32; 4],
 }
 
 impl Features {
     fn nontrivial(&self) -> bool {
-        self.carried > 0 || self.comma_ge12 > 0 || self.nl_before_comma > 0 || self.cyclic_using > 0
+        self.carried > 0
+            || self.comma_ge12 > 0
+            || self.nl_before_comma > 0
+            || self.cyclic_using > 0
+            || self.using_comma > 0
+            || self.using_tie_int_even + self.using_tie_int_odd + self.using_tie_frac > 0
     }
 }
 
@@ -107,6 +140,9 @@ impl DevModel {
         let pad = ZONE - self.col % ZONE;
         let blanks = vec![b' '; pad];
         self.text(&blanks, stmt);
+        if self.col > LAST_ZONE_START {
+            f.comma_far = true;
+        }
     }
     fn hard(&mut self, stmt: usize) {
         self.toks.push((Tok::Hard, stmt));
@@ -114,6 +150,11 @@ impl DevModel {
         self.since_soft = false;
     }
     fn alt(&mut self, opts: Vec<Vec<u8>>, stmt: usize) {
+        // renderings of one length may stand in the middle of a line (the column after them is known);
+        // renderings of different lengths are only ever followed by the end of the statement
+        if opts.iter().all(|o| o.len() == opts[0].len()) {
+            self.col += opts[0].len();
+        }
         self.toks.push((Tok::Alt(opts), stmt));
     }
 }
@@ -149,6 +190,33 @@ struct UsingVal {
     out: Vec<u8>,
     /// what the known comma-after-sign defect prints instead
     defect_out: Option<Vec<u8>>,
+    /// an exact tie in a field with decimals: what rounding half to even prints instead (when it differs)
+    tie_even_out: Option<Vec<u8>>,
+    /// a negative value that rounds to zero: the rendering with the other sign choice (same width)
+    zero_alt: Option<Vec<u8>>,
+    /// 0 no tie, 1 tie in a field without decimals and even integer part, 2 same with odd part, 3 field with decimals
+    tie: u8,
+    negative: bool,
+}
+
+/// Separator after a PRINT USING value.
+#[derive(Clone, Copy, Debug, PartialEq)]
+enum Sep {
+    None,
+    Semi,
+    Comma,
+}
+
+/// Which reading of the statement the expectation is computed for.
+#[derive(Clone, Copy, Default)]
+struct Mode {
+    /// known defect: comma printed between the sign and a 3k-digit number
+    comma_sign: bool,
+    /// defect: ties of a field with decimals go to the even neighbour
+    tie_even: bool,
+    /// literal text that follows a field is copied right after the value (before a comma's padding)
+    /// instead of right before the next value / at the end of the statement (after the padding)
+    eager_literals: bool,
 }
 
 #[derive(Clone, Debug)]
@@ -160,7 +228,9 @@ enum Kind {
         /// literal text before field 0, 1, .. n-1 and after the last field (n+1 entries)
         lits: Vec<String>,
         vals: Vec<UsingVal>,
-        trailing_semi: bool,
+        /// separator between value i and value i+1 (true = comma), len = vals.len() - 1
+        seps: Vec<bool>,
+        trailing: Sep,
     },
 }
 
@@ -204,7 +274,7 @@ impl Stmt {
                 }
                 out.push('\n');
             }
-            Kind::Using { fmt_src, fmt_pre, vals, trailing_semi, .. } => {
+            Kind::Using { fmt_src, fmt_pre, vals, seps, trailing, .. } => {
                 if let Some(p) = fmt_pre {
                     out.push_str(p);
                     out.push('\n');
@@ -221,13 +291,15 @@ impl Stmt {
                 out.push(';');
                 for (i, v) in vals.iter().enumerate() {
                     if i > 0 {
-                        out.push(';');
+                        out.push(if seps[i - 1] { ',' } else { ';' });
                     }
                     out.push(' ');
                     out.push_str(&v.src);
                 }
-                if *trailing_semi {
-                    out.push(';');
+                match trailing {
+                    Sep::None => {}
+                    Sep::Semi => out.push(';'),
+                    Sep::Comma => out.push(','),
                 }
                 out.push('\n');
             }
@@ -243,7 +315,7 @@ impl Stmt {
 }
 
 /// The PRINT model of the property statement, applied to one statement.
-fn apply(st: &Stmt, idx: usize, devs: &mut [DevModel; 4], f: &mut Features, defect: bool, last_dev: &mut Option<usize>) {
+fn apply(st: &Stmt, idx: usize, devs: &mut [DevModel; 4], f: &mut Features, mode: Mode, last_dev: &mut Option<usize>) {
     let d = &mut devs[st.dev];
     f.devices[st.dev] += 1;
     if d.pending && d.col > 0 {
@@ -308,27 +380,77 @@ fn apply(st: &Stmt, idx: usize, devs: &mut [DevModel; 4], f: &mut Features, defe
                 d.pending = false;
             }
         }
-        Kind::Using { lits, vals, trailing_semi, fmt_pre, .. } => {
+        Kind::Using { lits, vals, seps, trailing, fmt_pre, .. } => {
             let n = lits.len() - 1;
             if fmt_pre.is_some() {
                 f.variables += 1;
             }
+            let ncommas = seps.iter().filter(|c| **c).count() + (*trailing == Sep::Comma) as usize;
+            if ncommas > 0 && ncommas < seps.len() + (*trailing != Sep::None) as usize {
+                f.using_mixed_seps += 1;
+            }
             for (i, v) in vals.iter().enumerate() {
                 let fi = i % n;
-                if fi == 0 && i > 0 {
+                // literal text between the previous value and this one: the rest of the format after its
+                // last field and the text before field 0 when the format restarts, else the text between
+                // the two fields. A semicolon adds nothing; a comma pads to the next zone. The statement
+                // does not say whether the text that FOLLOWS a field is copied with that field's value
+                // (before the padding) or with the next one (after it): `mode.eager_literals`.
+                let comma = i > 0 && seps[i - 1];
+                let (with_prev, with_this): (&str, &str) = if i == 0 {
+                    ("", lits[0].as_str())
+                } else if fi == 0 {
+                    if mode.eager_literals { (lits[n].as_str(), lits[0].as_str()) } else { ("", "") }
+                } else if mode.eager_literals {
+                    (lits[fi].as_str(), "")
+                } else {
+                    ("", lits[fi].as_str())
+                };
+                d.text(with_prev.as_bytes(), idx);
+                if comma {
+                    f.using_comma += 1;
+                    let between_empty = if fi == 0 { lits[n].is_empty() && lits[0].is_empty() } else { lits[fi].is_empty() };
+                    if !between_empty {
+                        f.using_comma_at_literal += 1;
+                    }
+                    d.comma(idx, f);
+                }
+                if i > 0 && fi == 0 && !mode.eager_literals {
                     // values beyond the last field restart the format
                     d.text(lits[n].as_bytes(), idx);
+                    d.text(lits[0].as_bytes(), idx);
                 }
-                d.text(lits[fi].as_bytes(), idx);
+                d.text(with_this.as_bytes(), idx);
                 if v.pre.is_some() {
                     f.variables += 1;
                 }
-                match (&v.defect_out, defect) {
-                    (Some(x), true) => d.text(x, idx),
-                    _ => d.text(&v.out, idx),
+                match v.tie {
+                    1 => f.using_tie_int_even += 1,
+                    2 => f.using_tie_int_odd += 1,
+                    3 => f.using_tie_frac += 1,
+                    _ => {}
+                }
+                if v.tie > 0 && v.negative {
+                    f.using_tie_negative += 1;
+                }
+                if let (Some(x), false) = (&v.tie_even_out, PIN_FRACTION_TIES) {
+                    d.alt(vec![v.out.clone(), x.clone()], idx);
+                } else if let Some(z) = &v.zero_alt {
+                    // the sign of a zero is not pinned: both renderings have the width of the field
+                    f.using_neg_zero += 1;
+                    d.alt(vec![v.out.clone(), z.clone()], idx);
+                } else {
+                    match (&v.defect_out, mode.comma_sign, &v.tie_even_out, mode.tie_even) {
+                        (Some(x), true, _, _) => d.text(x, idx),
+                        (_, _, Some(x), true) => d.text(x, idx),
+                        _ => d.text(&v.out, idx),
+                    }
                 }
                 if v.defect_out.is_some() {
                     f.comma_sign_defect += 1;
+                }
+                if v.tie_even_out.is_some() && PIN_FRACTION_TIES {
+                    f.tie_even_defect += 1;
                 }
             }
             if vals.len() > n {
@@ -339,17 +461,34 @@ fn apply(st: &Stmt, idx: usize, devs: &mut [DevModel; 4], f: &mut Features, defe
             if last == n - 1 {
                 // the whole format was consumed: the literal text after the last field is copied
                 f.exact_using += 1;
-                d.text(tail, idx);
+                if mode.eager_literals {
+                    d.text(tail, idx);
+                }
+                if *trailing == Sep::Comma {
+                    f.using_comma += 1;
+                    f.using_comma_trailing += 1;
+                    if !tail.is_empty() {
+                        f.using_comma_at_literal += 1;
+                    }
+                    d.comma(idx, f);
+                }
+                if !mode.eager_literals {
+                    d.text(tail, idx);
+                }
             } else {
                 // values ran out mid-format: the implementation's tests document "literal text up to the
                 // next field"; the statement does not pin it, so printing nothing is accepted as well
                 f.cut_using += 1;
                 if !tail.is_empty() {
-                    assert!(!*trailing_semi);
+                    assert!(*trailing == Sep::None);
                     d.alt(vec![tail.to_vec(), Vec::new()], idx);
+                } else if *trailing == Sep::Comma {
+                    f.using_comma += 1;
+                    f.using_comma_trailing += 1;
+                    d.comma(idx, f);
                 }
             }
-            if *trailing_semi {
+            if *trailing != Sep::None {
                 d.pending = true;
                 f.trailing_sep += 1;
             } else {
@@ -365,12 +504,12 @@ struct Expected {
     features: Features,
 }
 
-fn expected(hist: &[Stmt], defect: bool) -> Expected {
+fn expected(hist: &[Stmt], mode: Mode) -> Expected {
     let mut devs: [DevModel; 4] = Default::default();
     let mut f = Features::default();
     let mut last_dev = None;
     for (i, st) in hist.iter().enumerate() {
-        apply(st, i, &mut devs, &mut f, defect, &mut last_dev);
+        apply(st, i, &mut devs, &mut f, mode, &mut last_dev);
     }
     let [a, b, c, d] = devs;
     Expected { devs: [a.toks, b.toks, c.toks, d.toks], features: f }
@@ -542,39 +681,89 @@ fn toks_from_json(v: &Value) -> Vec<(Tok, usize)> {
 // running one case
 // ---------------------------------------------------------------------------------------------
 
+type DevToks = [Vec<(Tok, usize)>; 4];
+
+/// Another reading of the history: `sig` None = equally admissible under the statement (accepted),
+/// Some = the model of a defect with its own narrow signature.
+struct AltExpect {
+    label: String,
+    sig: Option<String>,
+    what: String,
+    devs: DevToks,
+}
+
 struct Case {
     program: String,
-    expect: [Vec<(Tok, usize)>; 4],
-    /// expectation under the known comma-after-sign defect, when the history holds such a value
-    expect_defect: Option<[Vec<(Tok, usize)>; 4]>,
+    expect: DevToks,
+    alts: Vec<AltExpect>,
     tags: Vec<String>,
 }
 
+fn dev_json(d: &DevToks) -> Value {
+    json!({"screen": toks_to_json(&d[0]), "lpt1": toks_to_json(&d[1]), "file1": toks_to_json(&d[2]), "file2": toks_to_json(&d[3])})
+}
+
+fn devs_from_json(e: &Value) -> DevToks {
+    [toks_from_json(&e["screen"]), toks_from_json(&e["lpt1"]), toks_from_json(&e["file1"]), toks_from_json(&e["file2"])]
+}
+
+const WHAT_COMMA_SIGN: &str = "PRINT USING with a thousands comma prints the comma between the minus sign and a 3- or 6-digit number";
+const WHAT_TIE_EVEN: &str = "PRINT USING with a field that has decimals rounds a value exactly half-way between two renderings to the even neighbour instead of away from zero";
+
 impl Case {
-    fn from_history(hist: &[Stmt]) -> (Case, Features) {
-        let e = expected(hist, false);
-        let expect_defect = if e.features.comma_sign_defect > 0 { Some(expected(hist, true).devs) } else { None };
-        (Case { program: program_text(hist), expect: e.devs, expect_defect, tags: hist.iter().map(|s| s.tag().to_string()).collect() }, e.features)
+    /// None when the alternative literal order would leave the columns the check covers.
+    fn from_history(hist: &[Stmt]) -> Option<(Case, Features)> {
+        let e = expected(hist, Mode::default());
+        let mut alts = Vec::new();
+        if e.features.using_comma_at_literal > 0 {
+            let x = expected(hist, Mode { eager_literals: true, ..Mode::default() });
+            if x.features.comma_far || !max_col_ok(&x) {
+                return None;
+            }
+            if x.devs != e.devs {
+                alts.push(AltExpect { label: "literal text copied before the comma's padding".to_string(), sig: None, what: String::new(), devs: x.devs });
+            }
+        }
+        if e.features.tie_even_defect > 0 {
+            let x = expected(hist, Mode { tie_even: true, ..Mode::default() });
+            alts.push(AltExpect { label: "ties of fields with decimals rounded to even".to_string(), sig: Some(SIG_TIE_EVEN.to_string()), what: WHAT_TIE_EVEN.to_string(), devs: x.devs });
+        }
+        if e.features.comma_sign_defect > 0 {
+            let x = expected(hist, Mode { comma_sign: true, ..Mode::default() });
+            alts.push(AltExpect { label: "comma between sign and digits".to_string(), sig: Some(SIG_COMMA_SIGN.to_string()), what: WHAT_COMMA_SIGN.to_string(), devs: x.devs });
+        }
+        Some((Case { program: program_text(hist), expect: e.devs, alts, tags: hist.iter().map(|s| s.tag().to_string()).collect() }, e.features))
     }
 
     fn inputs(&self) -> Value {
-        let dev_json = |d: &[Vec<(Tok, usize)>; 4]| json!({"screen": toks_to_json(&d[0]), "lpt1": toks_to_json(&d[1]), "file1": toks_to_json(&d[2]), "file2": toks_to_json(&d[3])});
         json!({
             "kind": "history",
             "program": self.program,
             "expect": dev_json(&self.expect),
-            "expect_under_known_comma_defect": self.expect_defect.as_ref().map(dev_json),
+            "expect_alternatives": self.alts.iter().map(|a| json!({"label": a.label, "sig": a.sig, "what": a.what, "expect": dev_json(&a.devs)})).collect::<Vec<_>>(),
             "statement_kinds": self.tags,
         })
     }
 
     fn from_inputs(v: &Value) -> Case {
-        let devs = |e: &Value| [toks_from_json(&e["screen"]), toks_from_json(&e["lpt1"]), toks_from_json(&e["file1"]), toks_from_json(&e["file2"])];
+        let mut alts = Vec::new();
+        for a in v["expect_alternatives"].as_array().map(|a| a.as_slice()).unwrap_or(&[]) {
+            alts.push(AltExpect {
+                label: a["label"].as_str().unwrap_or("").to_string(),
+                sig: a["sig"].as_str().map(|x| x.to_string()),
+                what: a["what"].as_str().unwrap_or("").to_string(),
+                devs: devs_from_json(&a["expect"]),
+            });
+        }
+        // replay files written before the alternatives were generalised
         let d = &v["expect_under_known_comma_defect"];
+        if !d.is_null() {
+            alts.push(AltExpect { label: "comma between sign and digits".to_string(), sig: Some(SIG_COMMA_SIGN.to_string()), what: WHAT_COMMA_SIGN.to_string(), devs: devs_from_json(d) });
+        }
         Case {
             program: v["program"].as_str().unwrap_or("").to_string(),
-            expect: devs(&v["expect"]),
-            expect_defect: if d.is_null() { None } else { Some(devs(d)) },
+            expect: devs_from_json(&v["expect"]),
+            alts,
             tags: v["statement_kinds"].as_array().map(|a| a.iter().map(|x| x.as_str().unwrap_or("").to_string()).collect()).unwrap_or_default(),
         }
     }
@@ -610,11 +799,15 @@ impl Case {
         let Some((d, at)) = bad else {
             return Ok(());
         };
-        // does the output agree with the model of the known defect (comma printed between sign and digits)?
-        if let Some(def) = &self.expect_defect {
-            if (0..4).all(|k| match_stream(&def[k], obs[k]).is_ok()) {
-                return Err(Violation::new(SIG_COMMA_SIGN, "PRINT USING with a thousands comma prints the comma between the minus sign and a 3- or 6-digit number", self.inputs())
-                    .exp_obs(show_toks(&self.expect[d]), esc(obs[d])));
+        // another admissible reading, or the model of a defect with its own signature?
+        for a in &self.alts {
+            if (0..4).all(|k| match_stream(&a.devs[k], obs[k]).is_ok()) {
+                match &a.sig {
+                    None => return Ok(()),
+                    Some(sig) => {
+                        return Err(Violation::new(sig.clone(), a.what.clone(), self.inputs()).exp_obs(show_toks(&self.expect[d]), esc(obs[d])));
+                    }
+                }
             }
         }
         let tag = at.and_then(|i| self.tags.get(i).cloned()).unwrap_or_else(|| "plain".to_string());
@@ -955,7 +1148,10 @@ impl<'a, 'b> Gen<'a, 'b> {
             (format!("\"{}\"", fmt), None)
         };
         let want = 1 + self.t.choose(6);
+        // separators of the value list: 0 only semicolons, 1 each one a comma or a semicolon, 2 only commas
+        let sep_mode = self.t.choose(3);
         let mut vals: Vec<UsingVal> = Vec::new();
+        let mut seps: Vec<bool> = Vec::new();
         let mut c = c0;
         for i in 0..want {
             let fi = i % nfields;
@@ -966,56 +1162,101 @@ impl<'a, 'b> Gen<'a, 'b> {
                     let b = self.chars(n);
                     let out = render_str_field(&b, w);
                     let sv = self.string_val(b);
-                    UsingVal { src: sv.src, pre: sv.pre, out, defect_out: None }
+                    UsingVal { src: sv.src, pre: sv.pre, out, defect_out: None, tie_even_out: None, zero_alt: None, tie: 0, negative: false }
                 }
                 Field::Bang => {
                     let n = 1 + self.t.choose(8);
                     let b = self.chars(n);
                     let out = vec![b[0]];
                     let sv = self.string_val(b);
-                    UsingVal { src: sv.src, pre: sv.pre, out, defect_out: None }
+                    UsingVal { src: sv.src, pre: sv.pre, out, defect_out: None, tie_even_out: None, zero_alt: None, tie: 0, negative: false }
                 }
             };
+            // the separator before this value: a comma first moves to the next zone
+            let mut from = c;
+            let mut comma = false;
+            if i > 0 {
+                comma = match sep_mode {
+                    0 => false,
+                    1 => self.t.chance(1, 2),
+                    _ => true,
+                };
+                if comma {
+                    let z = c / ZONE * ZONE + ZONE;
+                    if z > LAST_ZONE_START {
+                        comma = false;
+                    } else {
+                        from = z;
+                    }
+                }
+            }
             // length of everything this value adds, plus the longest possible tail
             let mut add = lits[fi].len() + v.out.len();
             if fi == 0 && i > 0 {
                 add += lits[nfields].len();
             }
             let tail = lits[fi + 1].len();
-            if c + add + tail > MAX_COL && !vals.is_empty() {
+            if from + add + tail > MAX_COL && !vals.is_empty() {
                 break;
             }
-            c += add;
+            c = from + add;
+            if i > 0 {
+                seps.push(comma);
+            }
             vals.push(v);
         }
         let last = (vals.len() - 1) % nfields;
         let cut_with_tail = last != nfields - 1 && !lits[last + 1].is_empty();
-        let trailing_semi = !cut_with_tail && self.t.chance(1, 3);
-        Stmt { dev, kind: Kind::Using { fmt_src, fmt_pre, lits, vals, trailing_semi } }
+        let mut trailing = Sep::None;
+        if !cut_with_tail && self.t.chance(1, 3) {
+            trailing = Sep::Semi;
+            if sep_mode > 0 && self.t.chance(1, 2) && c / ZONE * ZONE + ZONE <= LAST_ZONE_START {
+                trailing = Sep::Comma;
+            }
+        }
+        Stmt { dev, kind: Kind::Using { fmt_src, fmt_pre, lits, vals, seps, trailing } }
     }
 
-    /// A value that fits the numeric field and is not a rounding tie, with its expected rendering:
-    /// right-justified in the field, rounded to the field's decimals.
+    /// A value that fits the numeric field, with its expected rendering: right-justified in the field,
+    /// rounded to the field's decimals. Besides ordinary values (first discarded digit never 5): exact ties
+    /// (the discarded part is exactly one half of the last kept place AND the value is exact in binary) and
+    /// negative values that round to zero.
     fn using_number(&mut self, int_fmt: &str, dec: usize) -> UsingVal {
         let h = int_fmt.bytes().filter(|b| *b == b'#').count();
         let ty = self.t.choose(4); // 0 INTEGER 1 LONG 2 SINGLE 3 DOUBLE
         let mut neg = h >= 2 && self.t.chance(1, 3);
-        let maxn = (h - neg as usize).min(match ty {
+        // value class of SINGLE / DOUBLE values: 1 exact tie, 2 negative and rounding to zero, else ordinary
+        let special = if ty >= 2 { self.t.choose(6) } else { 0 };
+        let budget = if ty == 2 { 6usize } else { 12 };
+        let mut maxn = (h - neg as usize).min(match ty {
             0 => 5,
             2 => 6,
             _ => 9,
         });
+        if special == 1 {
+            // integer digits + kept decimals + the 5 stay within the digits the type holds exactly
+            maxn = maxn.min(budget - dec - 1);
+        }
         let n = 1 + self.t.choose(maxn);
         let lo = if n == 1 { 0 } else { pow10(n - 1) };
         let mut hi = pow10(n) - 1;
         if ty == 0 {
             hi = hi.min(32767);
         }
-        let ip = self.t.range(lo, hi);
+        let mut ip = self.t.range(lo, hi);
         // fractional digits of the source value
         let mut frac: Vec<u8> = Vec::new();
-        if ty >= 2 {
-            let budget = if ty == 2 { 6usize } else { 12 };
+        if special == 1 {
+            // k / 2^(dec+1) with k odd: dec+1 decimal digits, the last one 5, exact in SINGLE and DOUBLE
+            let k = 2 * self.t.choose(1 << dec) as i64 + 1;
+            let digits = format!("{:0w$}", k * 5i64.pow(dec as u32 + 1), w = dec + 1);
+            frac = digits.bytes().map(|b| b - b'0').collect();
+        } else if special == 2 && h >= 2 {
+            neg = true;
+            ip = 0;
+            frac = vec![0; dec];
+            frac.push(*self.t.pick(&[1u8, 2, 3, 4]));
+        } else if ty >= 2 {
             let mut fd = self.t.choose(dec + 3);
             if n + fd.max(dec) > budget {
                 fd = 0; // integral values are exact in either type
@@ -1025,7 +1266,7 @@ impl<'a, 'b> Gen<'a, 'b> {
                 frac.push(dgt);
             }
         }
-        let (out, defect_out) = match render_numeric(int_fmt, dec, &mut neg, ip, &frac) {
+        let r = match render_numeric(int_fmt, dec, &mut neg, ip, &frac) {
             Some(x) => x,
             None => {
                 // rounding up would not fit any more: drop the discarded digits from the source value instead
@@ -1045,12 +1286,13 @@ impl<'a, 'b> Gen<'a, 'b> {
             format!("{}.{}", ip, frac.iter().map(|d| (b'0' + d) as char).collect::<String>())
         };
         let lit = format!("{}{}{}", if neg { "-" } else { "" }, mag, if ty == 3 { "#" } else { "" });
-        if self.t.chance(1, 3) {
+        let (src, pre) = if self.t.chance(1, 3) {
             let name = self.var(["%", "&", "!", "#"][ty]);
-            UsingVal { src: name.clone(), pre: Some(format!("{} = {}", name, lit)), out, defect_out }
+            (name.clone(), Some(format!("{} = {}", name, lit)))
         } else {
-            UsingVal { src: lit, pre: None, out, defect_out }
-        }
+            (lit, None)
+        };
+        UsingVal { src, pre, out: r.out, defect_out: r.comma_sign, tie_even_out: r.tie_even, zero_alt: r.zero_alt, tie: r.tie, negative: neg }
     }
 
     fn history(&mut self) -> Vec<Stmt> {
@@ -1063,7 +1305,7 @@ impl<'a, 'b> Gen<'a, 'b> {
         for _ in 0..n {
             let dev = self.t.choose(4);
             let st = if self.t.chance(1, 4) { self.using(dev, cols[dev]) } else { self.plain(dev, cols[dev]) };
-            apply(&st, hist.len(), &mut scratch, &mut f, false, &mut last_dev);
+            apply(&st, hist.len(), &mut scratch, &mut f, Mode::default(), &mut last_dev);
             cols[dev] = scratch[dev].col;
             hist.push(st);
         }
@@ -1071,29 +1313,26 @@ impl<'a, 'b> Gen<'a, 'b> {
     }
 }
 
-/// PRINT USING numeric field, from the statement: the value (sign, integer part, decimal digits of the
-/// fraction) rounded to the field's decimals and right-justified in the field; commas every third digit
-/// when the field has commas. Never called with a rounding tie. None when the rounded value does not fit
-/// (sign and digits <= number of #). `neg` is cleared when the value rounds to zero (the generator then
-/// writes it without a sign). Second result: what the known comma-after-sign defect prints instead.
-fn render_numeric(int_fmt: &str, dec: usize, neg: &mut bool, ip: i64, frac: &[u8]) -> Option<(Vec<u8>, Option<Vec<u8>>)> {
+struct NumOut {
+    out: Vec<u8>,
+    /// what the known comma-after-sign defect prints instead
+    comma_sign: Option<Vec<u8>>,
+    /// exact tie in a field with decimals whose kept part is even: what rounding half to even prints
+    tie_even: Option<Vec<u8>>,
+    /// negative value that rounds to zero: the rendering with the sign (`out` is the one without)
+    zero_alt: Option<Vec<u8>>,
+    tie: u8,
+}
+
+/// Digits (sign, grouped integer part, decimals) right-justified in the field; None when they do not fit.
+fn layout_numeric(int_fmt: &str, dec: usize, neg: bool, kept: i64) -> Option<(Vec<u8>, String, String, usize)> {
     let h = int_fmt.bytes().filter(|b| *b == b'#').count();
     let commas = int_fmt.contains(',');
     let width = int_fmt.len() + if dec > 0 { 1 + dec } else { 0 };
-    let mut kept: i64 = ip;
-    for k in 0..dec {
-        kept = kept * 10 + *frac.get(k).unwrap_or(&0) as i64;
-    }
-    if frac.len() > dec && frac[dec] >= 5 {
-        kept += 1;
-    }
-    if kept == 0 || (ip == 0 && frac.iter().all(|d| *d == 0)) {
-        *neg = false;
-    }
     let r_ip = kept / pow10(dec);
     let r_frac = kept % pow10(dec);
     let digits = r_ip.to_string();
-    if digits.len() + *neg as usize > h {
+    if digits.len() + neg as usize > h {
         return None;
     }
     let grouped = if commas {
@@ -1109,16 +1348,58 @@ fn render_numeric(int_fmt: &str, dec: usize, neg: &mut bool, ip: i64, frac: &[u8
         digits.clone()
     };
     let fracs = if dec > 0 { format!(".{:0w$}", r_frac, w = dec) } else { String::new() };
-    let body = format!("{}{}{}", if *neg { "-" } else { "" }, grouped, fracs);
+    let body = format!("{}{}{}", if neg { "-" } else { "" }, grouped, fracs);
     assert!(body.len() <= width);
-    let out = format!("{:>w$}", body, w = width).into_bytes();
-    let defect_out = if commas && *neg && digits.len() % 3 == 0 {
+    Some((format!("{:>w$}", body, w = width).into_bytes(), grouped, fracs, digits.len()))
+}
+
+/// PRINT USING numeric field, from the statement: the value (sign, integer part, decimal digits of the
+/// fraction) rounded to the field's decimals and right-justified in the field; commas every third digit
+/// when the field has commas. Rounding is to the nearest value the field can show; a value exactly
+/// half-way (`frac` has exactly one digit beyond the field's decimals and it is 5; the generator only
+/// builds such values when they are exact in binary) goes away from zero, as QBasic's decimal rounding
+/// of PRINT USING does. None when the rounded value does not fit (sign and digits <= number of #).
+/// `neg` is cleared when the VALUE is zero (the generator then writes it without a sign); a negative
+/// value that merely ROUNDS to zero keeps its sign in the source and both `0` and `-0` are admissible.
+fn render_numeric(int_fmt: &str, dec: usize, neg: &mut bool, ip: i64, frac: &[u8]) -> Option<NumOut> {
+    let commas = int_fmt.contains(',');
+    let width = int_fmt.len() + if dec > 0 { 1 + dec } else { 0 };
+    let mut kept: i64 = ip;
+    for k in 0..dec {
+        kept = kept * 10 + *frac.get(k).unwrap_or(&0) as i64;
+    }
+    let is_tie = frac.len() == dec + 1 && frac[dec] == 5;
+    let kept_down = kept;
+    if frac.len() > dec && frac[dec] >= 5 {
+        kept += 1;
+    }
+    if ip == 0 && frac.iter().all(|d| *d == 0) {
+        *neg = false;
+    }
+    let neg_zero = *neg && kept == 0;
+    let (out, grouped, fracs, ndigits) = layout_numeric(int_fmt, dec, *neg && !neg_zero, kept)?;
+    let zero_alt = if neg_zero { Some(layout_numeric(int_fmt, dec, true, kept)?.0) } else { None };
+    let comma_sign = if commas && *neg && !neg_zero && ndigits % 3 == 0 {
         let b = format!("-,{}{}", grouped, fracs);
         Some(format!("{:>w$}", b, w = width).into_bytes())
     } else {
         None
     };
-    Some((out, defect_out))
+    let tie = if !is_tie {
+        0
+    } else if dec > 0 {
+        3
+    } else if kept_down % 2 == 0 {
+        1
+    } else {
+        2
+    };
+    let tie_even = if is_tie && dec > 0 && kept_down % 2 == 0 && kept_down != 0 {
+        layout_numeric(int_fmt, dec, *neg, kept_down).map(|x| x.0)
+    } else {
+        None
+    };
+    Some(NumOut { out, comma_sign, tie_even, zero_alt, tie })
 }
 
 /// `\ \` field: left-justified, padded / truncated to the width.
@@ -1213,6 +1494,39 @@ fn record_features(sh: &mut Shard, f: &Features, nstmts: usize) {
     if f.comma_sign_defect > 0 {
         sh.class("using-negative-3k-digits-in-comma-field");
     }
+    if f.using_comma > 0 {
+        sh.class("using-comma-separator");
+    }
+    if f.using_comma > f.using_comma_trailing {
+        sh.class("using-comma-between-values");
+    }
+    if f.using_comma_trailing > 0 {
+        sh.class("using-comma-trailing");
+    }
+    if f.using_comma_at_literal > 0 {
+        sh.class("using-comma-next-to-literal-text");
+    }
+    if f.using_mixed_seps > 0 {
+        sh.class("using-commas-and-semicolons-mixed");
+    }
+    if f.using_tie_int_even > 0 {
+        sh.class("using-tie:no-decimals,even-integer-part");
+    }
+    if f.using_tie_int_odd > 0 {
+        sh.class("using-tie:no-decimals,odd-integer-part");
+    }
+    if f.using_tie_frac > 0 {
+        sh.class("using-tie:field-with-decimals");
+    }
+    if f.tie_even_defect > 0 {
+        sh.class("using-tie:field-with-decimals,even-kept-digit");
+    }
+    if f.using_tie_negative > 0 {
+        sh.class("using-tie:negative");
+    }
+    if f.using_neg_zero > 0 {
+        sh.class("using-negative-rounds-to-zero");
+    }
 }
 
 fn random_case(sh: &mut Shard, tape: &[u32]) -> Result<(), Violation> {
@@ -1221,12 +1535,19 @@ fn random_case(sh: &mut Shard, tape: &[u32]) -> Result<(), Violation> {
         let mut g = Gen { t: &mut t, nvar: 0 };
         g.history()
     };
-    let e = expected(&hist, false);
+    let e = expected(&hist, Mode::default());
     if !max_col_ok(&e) {
         sh.discard("a line would reach column 80 (wrapping is not pinned by the statement)");
         return Ok(());
     }
-    let (case, f) = Case::from_history(&hist);
+    if e.features.comma_far {
+        sh.discard("a comma would move beyond the zone at column 56 (wrapping is not pinned by the statement)");
+        return Ok(());
+    }
+    let Some((case, f)) = Case::from_history(&hist) else {
+        sh.discard("under the other order of literal text and comma padding a line would leave the covered columns");
+        return Ok(());
+    };
     sh.journal(&case.program);
     sh.eval();
     record_features(sh, &f, hist.len());
@@ -1303,7 +1624,7 @@ fn exhaustive_pairs(sh: &mut Shard, max_len: usize) -> bool {
         let mut hist: Vec<Stmt> = Vec::new();
         for idx in lo..hi {
             let pair = pair_history(&stmts, idx);
-            let e = expected(&pair, false);
+            let e = expected(&pair, Mode::default());
             sh.eval();
             if e.features.nontrivial() {
                 sh.nontrivial(hash64(&("pair", max_len, idx)));
@@ -1325,7 +1646,7 @@ fn exhaustive_pairs(sh: &mut Shard, max_len: usize) -> bool {
                 }
             }
         }
-        let (case, _) = Case::from_history(&hist);
+        let (case, _) = Case::from_history(&hist).expect("plain statements have one reading");
         sh.journal(&case.program);
         let mut r = case.run();
         if r.is_err() {
@@ -1333,7 +1654,7 @@ fn exhaustive_pairs(sh: &mut Shard, max_len: usize) -> bool {
             let mut single = false;
             for idx in lo..hi {
                 let pair = pair_history(&stmts, idx);
-                let (c1, _) = Case::from_history(&pair);
+                let (c1, _) = Case::from_history(&pair).expect("plain statements have one reading");
                 sh.journal(&c1.program);
                 let r1 = c1.run();
                 if r1.is_err() {
@@ -1345,7 +1666,7 @@ fn exhaustive_pairs(sh: &mut Shard, max_len: usize) -> bool {
             if !single {
                 // state leaks from one pair into a later one: shortest failing prefix, then longest droppable head
                 let fails = |sh: &mut Shard, from: usize, to: usize| -> Option<Violation> {
-                    let (c, _) = Case::from_history(&hist[from..to]);
+                    let (c, _) = Case::from_history(&hist[from..to]).expect("plain statements have one reading");
                     sh.journal(&c.program);
                     c.run().err()
                 };
@@ -1397,16 +1718,18 @@ fn a_plain(args: Vec<Arg>) -> Stmt {
 
 fn u_num(src: &str, int_fmt: &str, dec: usize, neg: bool, ip: i64, frac: &[u8]) -> UsingVal {
     let mut n = neg;
-    let (out, defect_out) = render_numeric(int_fmt, dec, &mut n, ip, frac).expect("anchor value fits");
-    UsingVal { src: src.to_string(), pre: None, out, defect_out }
+    let r = render_numeric(int_fmt, dec, &mut n, ip, frac).expect("anchor value fits");
+    UsingVal { src: src.to_string(), pre: None, out: r.out, defect_out: r.comma_sign, tie_even_out: r.tie_even, zero_alt: r.zero_alt, tie: r.tie, negative: n }
 }
 
 fn u_str(text: &str, out: Vec<u8>) -> UsingVal {
-    UsingVal { src: format!("\"{}\"", text), pre: None, out, defect_out: None }
+    UsingVal { src: format!("\"{}\"", text), pre: None, out, defect_out: None, tie_even_out: None, zero_alt: None, tie: 0, negative: false }
 }
 
 fn a_using(fmt: &str, lits: &[&str], vals: Vec<UsingVal>, trailing_semi: bool) -> Stmt {
-    Stmt { dev: 0, kind: Kind::Using { fmt_src: format!("\"{}\"", fmt), fmt_pre: None, lits: lits.iter().map(|x| x.to_string()).collect(), vals, trailing_semi } }
+    let seps = vec![false; vals.len().saturating_sub(1)];
+    let trailing = if trailing_semi { Sep::Semi } else { Sep::None };
+    Stmt { dev: 0, kind: Kind::Using { fmt_src: format!("\"{}\"", fmt), fmt_pre: None, lits: lits.iter().map(|x| x.to_string()).collect(), vals, seps, trailing } }
 }
 
 fn anchors() -> Vec<(&'static str, Vec<Stmt>, &'static str)> {
@@ -1507,7 +1830,7 @@ fn run_anchors(sh: &mut Shard) -> bool {
         if !sh.mine(i as u64) {
             continue;
         }
-        let (case, _) = Case::from_history(&hist);
+        let (case, _) = Case::from_history(&hist).expect("anchors have one reading");
         let model = flatten_documented(&case.expect[0]);
         if model != literal.as_bytes() {
             panic!("harness fault: the C16 model disagrees with the unit-test expectation {}: model {:?}, pinned {:?}", name, esc(&model), literal);
@@ -1527,7 +1850,7 @@ impl Prop for C16 {
         "C16"
     }
     fn rule(&self) -> &'static str {
-        "Random histories of 1-12 statements (PRINT / LPRINT / PRINT #1, / PRINT #2,; one in four is PRINT USING) decoded from a proptest tape: item lists of up to 8 entries over INTEGER, LONG, SINGLE, DOUBLE integral numbers of either sign, strings of length 0-30 (empty, with embedded CR / LF / CRLF built with CHR$), strings sized so that the column before a comma lands on 12,13,14,15,27,28,29,41,42,43, separators ; and , in every position (leading, trailing, consecutive), a non-integral number only as the last item of a newline-terminated statement, values as literals or through variables; PRINT USING formats of 1-4 fields (# runs, # runs with one ., thousands commas as #,### ##,### ###,### #,###,###, \\ \\ of width 2-8, !) with literal text around them and 1-6 values (fewer and more than fields). The model written from the statement gives the expected bytes of screen, LPT1 and both files. A history is NON-TRIVIAL when a statement continues on a device at a carried column > 0, or a comma is met at column >= 12, or a comma follows an embedded CR/LF on the same line, or a USING format is reused cyclically; distinct by hash of the program text. Plus the complete enumeration of all two-statement histories (each statement any grammatical list of <= 2 (quick) / <= 4 (thorough) entries over the alphabet { ; , -7 \"ABCDEFGHIJKLMN\" \"xy\"+CHR$(13)+\"z\" \"\" }, all 16 device pairs), run in batches of 64 pairs per program."
+        "Random histories of 1-12 statements (PRINT / LPRINT / PRINT #1, / PRINT #2,; one in four is PRINT USING) decoded from a proptest tape: item lists of up to 8 entries over INTEGER, LONG, SINGLE, DOUBLE integral numbers of either sign, strings of length 0-30 (empty, with embedded CR / LF / CRLF built with CHR$), strings sized so that the column before a comma lands on 12,13,14,15,27,28,29,41,42,43, separators ; and , in every position (leading, trailing, consecutive), a non-integral number only as the last item of a newline-terminated statement, values as literals or through variables; PRINT USING formats of 1-4 fields (# runs, # runs with one ., thousands commas as #,### ##,### ###,### #,###,###, \\ \\ of width 2-8, !) with literal text around them and 1-6 values (fewer and more than fields), the values separated by ; only, by , only or by a mix of both (one statement in three each), optionally with a trailing ; or , ; SINGLE / DOUBLE values of numeric fields are ordinary (first discarded digit 1,2,3,6,7,8), or (1 in 6) an exact rounding tie (x.5 for a field without decimals, k/2^(d+1) with k odd for a field with d decimals - binary-exact in both types), or (1 in 6) a negative value that rounds to zero. The model written from the statement gives the expected bytes of screen, LPT1 and both files. A history is NON-TRIVIAL when a statement continues on a device at a carried column > 0, or a comma is met at column >= 12, or a comma follows an embedded CR/LF on the same line, or a USING format is reused cyclically, or a PRINT USING value list holds a comma, or a PRINT USING value is an exact rounding tie; distinct by hash of the program text. Plus the complete enumeration of all two-statement histories (each statement any grammatical list of <= 2 (quick) / <= 4 (thorough) entries over the alphabet { ; , -7 \"ABCDEFGHIJKLMN\" \"xy\"+CHR$(13)+\"z\" \"\" }, all 16 device pairs), run in batches of 64 pairs per program."
     }
     fn assumptions(&self) -> Vec<&'static str> {
         vec![
@@ -1535,7 +1858,9 @@ impl Prop for C16 {
             "The bytes written for a CR or LF embedded in a string are not pinned (the statement only says the column restarts): any non-empty run of CR/LF bytes is accepted where the model has an embedded newline; the zone padding after it is checked exactly",
             "A non-integral number with |v| < 1 may be written with or without a 0 before the point; such numbers only appear as the last item of a newline-terminated statement",
             "SINGLE values have at most 6 significant digits, DOUBLE at most 12, integral values at most 10 digits (larger ones print in exponent form in QBasic; the statement says 'digits')",
-            "PRINT USING: only ; between values; values fit their field (sign and digits <= number of #), never rounding ties (first discarded digit in 1,2,3,6,7,8); literal text avoids every QBasic format character; when values run out mid-format the literal text up to the next field may be printed (documented by the implementation's tests) or omitted (statement silent), and such statements end with a newline",
+            "PRINT USING: values fit their field (sign and digits <= number of #); rounding is only exercised where it is determined: the first discarded digit is 1,2,3,6,7,8, or the value is an exact tie that is also exact in binary (decimal ties such as .15 that binary cannot hold are not generated); an exact tie goes away from zero (QBasic's PRINT USING rounds the decimal digits half up: ## of 2.5 is 3, #.# of .25 is 0.3); literal text avoids every QBasic format character; when values run out mid-format the literal text up to the next field may be printed (documented by the implementation's tests) or omitted (statement silent), and such statements end with a newline",
+            "PRINT USING with , between or after the values: the statement's comma rule is applied as for a plain PRINT (pad to the next multiple of 14 on that device, a trailing comma carries the column to the next statement). Whether literal text that follows a field is copied with that field's value (before the padding) or with the next value / at the end of the statement (after the padding) is not pinned: both layouts are accepted, each consistently for the whole history; histories where either layout leaves columns 0-79 / the zone at 56 are discarded",
+            "The sign of a negative value that PRINT USING rounds to zero is not pinned (QBasic keeps it, -0; the tree drops it in fields without decimals): ' 0' and '-0' are both accepted, negative values only go to fields with at least two #",
             "A thousands comma is only placed at thousands positions of the field, where 'comma every third digit' and 'comma where the format has one' coincide",
         ]
     }
